@@ -194,3 +194,28 @@ Proof. intros. rewrite firstn_app, Nat.sub_diag, firstn_all. simpl. apply app_ni
 
 Lemma nth_error_app_exact : forall (A : Type) (l r : list A) x, nth_error (l ++ x :: r) (length l) = Some x.
 Proof. intros. rewrite nth_error_app2 by lia. rewrite Nat.sub_diag. reflexivity. Qed.
+
+Lemma NoDup_app_disj : forall (A : Type) (l1 l2 : list A) x, NoDup (l1 ++ l2) -> In x l1 -> In x l2 -> False.
+Proof.
+  induction l1 as [|y l1 IH]; intros l2 x H H1 H2; [contradiction|]. simpl in H. inversion H; subst.
+  destruct H1 as [->|H1]; [apply H4; apply in_or_app; right; exact H2|eapply IH; eassumption].
+Qed.
+
+
+Lemma in_cell_spec : forall cs x, In x (order_of cs) -> exists c, nth_error cs (in_cell cs x) = Some c /\ In x (cverts c).
+Proof.
+  induction cs as [|c cs IH]; intros x H; [contradiction|]. rewrite order_of_cons in H. simpl.
+  destruct (Canon.Perm.memb x (cverts c)) eqn:E.
+  - exists c. split; [reflexivity|apply memb_In; exact E].
+  - apply in_app_or in H. destruct H as [H|H]; [apply memb_In in H; congruence|]. apply IH. exact H.
+Qed.
+
+Lemma perm_filter_ne : forall (l : list nat) x, NoDup l -> In x l -> Permutation (x :: filter (fun u => negb (u =? x)) l) l.
+Proof.
+  induction l as [|y l IH]; intros x Hnd Hx; [contradiction|]. apply NoDup_cons_iff in Hnd. destruct Hnd as [Hy Hnd].
+  simpl. destruct (y =? x) eqn:E; simpl.
+  - apply Nat.eqb_eq in E. subst y. constructor. rewrite filter_all; [apply Permutation_refl|].
+    intros u Hu. apply negb_true_iff, Nat.eqb_neq. intros ->. contradiction.
+  - apply Nat.eqb_neq in E. destruct Hx as [Hx|Hx]; [congruence|].
+    eapply perm_trans; [apply perm_swap|]. constructor. apply IH; assumption.
+Qed.
